@@ -3,6 +3,13 @@
 import json, sys
 pid, tag = sys.argv[1], sys.argv[2]
 p = {json.loads(l)["id"]: json.loads(l) for l in open("/verif/properties.jsonl")}[pid]
+import glob
+used = []
+for f in sorted(glob.glob(f"/verif/seeded/{pid}-*/meta.json")):
+    m = json.load(open(f))
+    used.append(f" - {str(m.get('breaks'))[:260]} [trigger: {str(m.get('needs'))[:260]}]")
+USED = ("\nOther engineers have ALREADY produced the following changes for this property. Do something DIFFERENT: another clause of the\n"
+        "statement, another function/file among the anchors, another kind of trigger.\n" + "\n".join(used) + "\n") if used else ""
 print(f"""You are a careful adversarial engineer. The Python library pipefunc (a function-DAG pipeline library) is checked out as a git
 worktree that you create yourself:   git -C /repo worktree add --detach /tmp/seed/{tag} HEAD
 Work ONLY inside /tmp/seed/{tag} (never edit /repo itself, never read or write anything under /verif — it is off limits, and nothing
@@ -16,6 +23,7 @@ The library is supposed to satisfy this semantic property:
   (quantified over: {p['quantifier']['text']})
   Anchored in: {', '.join(p['anchors']['files'])}
 
+{USED}
 YOUR TASK: produce TWO different, independent source changes (mutation A and mutation B) to files under pipefunc/ that each BREAK this
 property while the library still imports, and the existing test-suite still passes. Requirements for each mutation:
  * It must look like a plausible refactoring/optimisation/bug a maintainer could commit (a few changed lines), not sabotage that any
